@@ -230,7 +230,7 @@ def execute(env, case):
         # Result.columns(<int>) must keep the key and the value of that position
         colproj = []
         if not isinstance(stmt, str):
-            for i in range(len(keys)):
+            for i in sorted({0, len(keys) // 2, len(keys) - 1}):
                 try:
                     r2 = conn.execute(stmt).columns(i)
                     k2 = list(r2.keys())
@@ -537,6 +537,117 @@ def check_one(ctx, env, case, corr):
         ctx.sample({"case": case, "sql": str(ob["stmt"]).replace("\n", " ")[:200], "keys": ob["keys"]}, cap=5)
 
 
+def observe(conn, stmt):
+    """execute and capture what model_request / the oracle need"""
+    res = conn.execute(stmt)
+    md = res._metadata
+    ectx = res.context
+    adapted = None
+    if (ectx.compiled is not None and getattr(ectx.compiled, "_result_columns", None)
+            and not ectx.execution_options.get("_result_disable_adapt_to_context", False)
+            and ectx.cache_hit is ectx.dialect.CACHE_HIT
+            and ectx.compiled.statement is not ectx.invoked_statement):
+        adapted = list(ectx.invoked_statement._all_selected_columns)
+    ob = {"md": md, "desc": [d[0] for d in res.cursor.description], "struct": res.context.result_column_struct,
+          "keys": list(res.keys()), "adapted": adapted, "cache_hit": ectx.cache_hit is ectx.dialect.CACHE_HIT}
+    ob["row"] = res.first()
+    return ob
+
+
+def history_cases(ctx, corr):
+    """re-execute a cached, name-matched statement after the physical column order behind `*`
+    changed: every execution must map names / column objects to the columns of *that* cursor"""
+    import sqlalchemy as sa
+
+    rng = ctx.rng
+    n = 24 if ctx.tier == "quick" else 200
+    for it in range(n):
+        kind = rng.choice(["text-named", "text-mixed", "star", "star+label", "star+expr"])
+        how = "recreate" if kind.startswith("text") else rng.choice(["recreate", "schema_translate"])
+        cols = ["a", "b", "c"][: rng.choice([2, 3])]
+        val = {"a": 1, "b": 2, "c": 3}
+        orders = []
+        for _ in range(rng.choice([2, 3, 4])):
+            o = list(cols)
+            rng.shuffle(o)
+            orders.append(o)
+        if len({tuple(o) for o in orders}) == 1:
+            orders[-1] = list(reversed(orders[0]))
+        eng = sa.create_engine("sqlite://")
+        case = {"family": "history", "how": how, "kind": kind, "orders": orders}
+        try:
+            with eng.connect() as conn:
+                md = sa.MetaData()
+                if how == "schema_translate":
+                    for i, o in enumerate(orders):
+                        conn.exec_driver_sql("attach ':memory:' as s%d" % i)
+                        conn.exec_driver_sql("create table s%d.h (%s)" % (i, ", ".join("%s integer" % c for c in o)))
+                        conn.exec_driver_sql("insert into s%d.h (%s) values (%s)" % (i, ",".join(o), ",".join(str(val[c]) for c in o)))
+                    h = sa.Table("h", md, *[sa.Column(c, sa.Integer) for c in cols], schema="per")
+                else:
+                    h = sa.Table("h", md, *[sa.Column(c, sa.Integer) for c in cols])
+                tname = "per.h" if how == "schema_translate" else "h"
+                objs = []
+                if kind == "text-named":
+                    if how == "schema_translate":
+                        continue  # plain text is not schema-translated
+                    stmt = sa.text("SELECT * FROM h").columns(**{c: sa.Integer for c in cols})
+                    objs = list(stmt.selected_columns)
+                elif kind == "text-mixed":
+                    if how == "schema_translate":
+                        continue
+                    stmt = sa.text("SELECT * FROM h").columns(*[h.c[c] for c in cols], zz_unused=sa.Integer)
+                    objs = [h.c[c] for c in cols]
+                elif kind == "star":
+                    stmt = sa.select(sa.literal_column("*")).select_from(h)
+                elif kind == "star+label":
+                    stmt = sa.select(sa.literal_column("*"), h.c.a.label("x")).select_from(h)
+                else:
+                    stmt = sa.select(sa.literal_column("*"), (h.c.a + 100).label("y")).select_from(h)
+                for step, o in enumerate(orders * 2 if how == "schema_translate" else orders):
+                    i = step % len(orders)
+                    if how == "recreate":
+                        conn.exec_driver_sql("drop table if exists h")
+                        conn.exec_driver_sql("create table h (%s)" % ", ".join("%s integer" % c for c in o))
+                        conn.exec_driver_sql("insert into h (%s) values (%s)" % (",".join(o), ",".join(str(val[c]) for c in o)))
+                        c2 = conn
+                    else:
+                        c2 = conn.execution_options(schema_translate_map={"per": "s%d" % i})
+                    with warnings.catch_warnings():
+                        warnings.simplefilter("ignore")
+                        ob = observe(c2, stmt)
+                    row = ob["row"]
+                    ctx.case("history:%s:%s:%s:%d" % (how, kind, orders, step), nontrivial=True)
+                    ctx.count("history=%s/%s" % (how, kind))
+                    ctx.count("history-cache-hit=%s" % ob["cache_hit"])
+                    exp_row = [val[c] for c in o] + ([val["a"]] if kind == "star+label" else []) + ([val["a"] + 100] if kind == "star+expr" else [])
+                    here = dict(case, step=step, order=o)
+                    if row is None or list(row) != exp_row:
+                        ctx.violation("c11-oracle:history-positional", here, "row %r, expected %r" % (row, exp_row))
+                        continue
+                    for c in cols:
+                        out, v = lookup_row(row, c)
+                        if (out, v) != ("V", val[c]):
+                            ctx.violation("c11-oracle:history-stale-metadata:string", here,
+                                          "execution #%d (physical order %r, cache hit %s): row._mapping[%r] -> %s %r, expected %r; row %r"
+                                          % (step, o, ob["cache_hit"], c, out, v, val[c], tuple(row)))
+                    for obj in objs:
+                        out, v = lookup_row(row, obj)
+                        if (out, v) != ("V", val[obj.name]):
+                            ctx.violation("c11-oracle:history-stale-metadata:object", here,
+                                          "execution #%d (physical order %r): row._mapping[<column %s>] -> %s %r, expected %r"
+                                          % (step, o, obj.name, out, v, val[obj.name]))
+                    if ob["keys"][: len(o)] != o:
+                        ctx.violation("c11-oracle:history-keys", here, "keys %r for physical order %r" % (ob["keys"], o))
+                    line, impl = model_request(ob)
+                    if line is not None:
+                        corr[0].append(here)
+                        corr[1].append(impl)
+                        corr[2].append(line)
+        finally:
+            eng.dispose()
+
+
 def run(ctx, deep=False):
     ctx.rule = (
         "random SELECT lists of 1..6 elements (table columns of 3 joined single-row tables with colliding names, labels "
@@ -555,6 +666,7 @@ def run(ctx, deep=False):
             check_one(ctx, env, case, corr)
         for _ in range(n):
             check_one(ctx, env, gen_case(ctx.rng), corr)
+        history_cases(ctx, corr)
         if ctx.driver_ok() and corr[0]:
             ctx.correspond("corr/c11:keymap-vs-Model.RowKeys", corr[0], corr[1], ctx.driver(corr[2]))
     finally:
@@ -578,6 +690,12 @@ def search(ctx, broken):
 
 def replay(ctx, obj):
     case = obj["case"]
+    if case.get("family") == "history":
+        sub = type(ctx)(ctx.pid, "thorough", obj.get("seed", 0), ctx.level)
+        history_cases(sub, ([], [], []))
+        hits = [v for v in sub.violations if v["key"] == obj.get("key")]
+        print("replay C11 history key=%s -> %d failing executions; first: %s" % (obj.get("key"), len(hits), hits[0]["detail"] if hits else None))
+        return bool(hits)
     env = Env()
     try:
         ob = execute(env, case)
